@@ -24,10 +24,16 @@ import (
 func TestVerifDemoC07(t *testing.T) {
 	DebugGoroutines = false
 	cli, srv := net.Pipe()
-	ctx, md := metadata.NewContext(context.Background())
+	ctx, _ := metadata.NewContext(context.Background())
 	started := make(chan struct{})
 	done := make(chan struct{})
 	h := http.HandlerFunc(func(w http.ResponseWriter, r *http.Request) {
+		// what a header injector does: the metadata comes from the request's context
+		md, ok := metadata.FromContext(r.Context())
+		if !ok {
+			fmt.Println("REPLAY-UNSUPPORTED request context carries no metadata")
+			return
+		}
 		close(started)
 		deadline := time.Now().Add(300 * time.Millisecond)
 		n := 0
